@@ -4,6 +4,8 @@ import (
 	"fmt"
 	"go/token"
 	"go/types"
+	"math/big"
+	"path/filepath"
 	"sort"
 	"strings"
 
@@ -52,7 +54,158 @@ func purityCheck(p *Program, r *Report, ef *Effects, rule string, fn *ssa.Functi
 	r.Add(rule, FnName(fn), "does not write memory reachable from its arguments", fn.Pos(), len(bad) == 0, how)
 }
 
+// purityCheckArgs is purityCheck for methods: writes to the receiver's own fields are the method's business, writes
+// through the other arguments are not.
+func purityCheckArgs(p *Program, r *Report, ef *Effects, rule string, fn *ssa.Function) {
+	var bad []string
+	for _, e := range ef.WriteEffects(fn) {
+		if e.Root.Kind == rkParam && e.Root.Idx >= 1 {
+			bad = append(bad, fmt.Sprintf("%s → %s at %s", e.What, e.Root, p.Pos(e.Pos)))
+		}
+	}
+	sort.Strings(bad)
+	bad = dedup(bad)
+	how := "no store, copy, append or writer call targets memory reachable from a non-receiver argument"
+	if len(bad) > 0 {
+		how = strings.Join(bad, "; ")
+	}
+	r.Add(rule, FnName(fn), "does not write memory reachable from its arguments", fn.Pos(), len(bad) == 0, how)
+}
+
+// sharedStateRule: the functions declared in the given files keep no mutable package-level state: no store, copy,
+// append, map update or state-changing method call (closed over in-repo callees) targets memory reachable from a
+// package-level variable, unless a package-level mutex is held at the writing instruction.  Package initialisers are
+// not entered (they fill the tables once, before any call).  This is what lets two goroutines, or two successive
+// calls, use the codec without seeing each other: a scratch big.Int, hash state or buffer hoisted into a variable, or
+// a cached slice handed out with spare capacity, is such a write.
+func sharedStateRule(p *Program, r *Report, ef *Effects, rule string, files []string) int {
+	want := map[string]bool{}
+	for _, f := range files {
+		want[filepath.Join(p.Repo, f)] = true
+	}
+	n := 0
+	var fns []*ssa.Function
+	for _, fn := range p.Funcs {
+		if fn.Parent() != nil || fn.Synthetic != "" || strings.HasPrefix(fn.Name(), "init") {
+			continue
+		}
+		if !want[p.Fset.Position(fn.Pos()).Filename] {
+			continue
+		}
+		fns = append(fns, fn)
+	}
+	sort.Slice(fns, func(i, j int) bool { return FnName(fns[i]) < FnName(fns[j]) })
+	for _, fn := range fns {
+		var bad []string
+		for _, e := range ef.WriteEffects(fn) {
+			if e.Root.Kind != rkGlobal {
+				continue
+			}
+			if e.In != nil && strings.HasPrefix(e.In.Name(), "init") {
+				continue
+			}
+			if writeUnderGlobalLock(e) {
+				continue
+			}
+			bad = append(bad, fmt.Sprintf("%s → %s at %s", e.What, e.Root, p.Pos(e.Pos)))
+		}
+		sort.Strings(bad)
+		bad = dedup(bad)
+		how := "no write reaches package-level memory (all paths, in-repo callees included)"
+		if len(bad) > 0 {
+			how = strings.Join(bad, "; ")
+		}
+		r.Analysed(FnName(fn))
+		r.Add(rule, FnName(fn), "keeps no unguarded mutable package-level state", fn.Pos(), len(bad) == 0, how)
+		n++
+	}
+	return n
+}
+
+// writeUnderGlobalLock: the writing instruction is dominated by Lock() on a package-level mutex with no Unlock() of it
+// in between (same function).
+func writeUnderGlobalLock(e Effect) bool {
+	fn := e.In
+	if fn == nil {
+		return false
+	}
+	var w ssa.Instruction
+	for _, b := range fn.Blocks {
+		for _, in := range b.Instrs {
+			if in.Pos() == e.Pos && e.Pos.IsValid() {
+				w = in
+			}
+		}
+	}
+	if w == nil {
+		return false
+	}
+	before := func(a, b ssa.Instruction) bool { // a executes before b on every path to b
+		if a.Block() == b.Block() {
+			for _, in := range a.Block().Instrs {
+				if in == a {
+					return true
+				}
+				if in == b {
+					return false
+				}
+			}
+		}
+		return a.Block().Dominates(b.Block())
+	}
+	type ev struct {
+		in  ssa.Instruction
+		mu  *ssa.Global
+		rel bool
+	}
+	var evs []ev
+	for _, b := range fn.Blocks {
+		for _, in := range b.Instrs {
+			c, ok := in.(ssa.CallInstruction)
+			if !ok {
+				continue
+			}
+			cal := c.Common().StaticCallee()
+			if cal == nil || len(c.Common().Args) == 0 {
+				continue
+			}
+			name := cal.String()
+			isLock := name == "(*sync.Mutex).Lock" || name == "(*sync.RWMutex).Lock"
+			isUnlock := name == "(*sync.Mutex).Unlock" || name == "(*sync.RWMutex).Unlock"
+			if !isLock && !isUnlock {
+				continue
+			}
+			if g, ok := canonRoot(c.Common().Args[0]).(*ssa.Global); ok {
+				if _, deferred := in.(*ssa.Defer); deferred {
+					continue // runs at exit
+				}
+				evs = append(evs, ev{in, g, isUnlock})
+			}
+		}
+	}
+	for _, l := range evs {
+		if l.rel || !before(l.in, w) {
+			continue
+		}
+		held := true
+		for _, u := range evs {
+			if u.rel && u.mu == l.mu && before(l.in, u.in) && before(u.in, w) {
+				held = false
+			}
+		}
+		if held {
+			return true
+		}
+	}
+	return false
+}
+
 func checkC07(p *Program, r *Report) {
+	if radixWrapRule(p, r, "C07.exact", []string{"base58", "bech32"}) == 0 {
+		r.Note("C07.exact: no fixed-width positional accumulator in base58 / bech32 (decoding uses math/big)")
+	}
+	sharedStateRule(p, r, NewEffects(p), "C07.shared", []string{"base58/base58.go", "base58/base58check.go", "bech32/bech32.go"})
+	r.Floor("C07.shared", 5)
 	r.Explain = "C07.pure: write-effect analysis — no path of base58.Encode/Decode/CheckEncode/CheckDecode, bech32.Encode/Decode/ConvertBits " +
 		"(or their in-repo callees) stores, copies, appends or hands to a writer any memory reachable from an argument. C07.tables: the Base58 " +
 		"alphabet and decode table agree symbol by symbol and equal Bitcoin's; the bech32 charset equals BIP173's on both sides. C07.checksum: " +
@@ -269,12 +422,303 @@ func c07tables(p *Program, r *Report, fns map[string]*ssa.Function) {
 			r.Add(c07TablesRule, FnName(benc), "bech32 encode charset equals BIP173's", benc.Pos(), e == bip173Charset && distinctChars(e), "32 distinct symbols")
 		}
 		if d == "" {
-			r.Unresolved(c07TablesRule, "32-symbol constant searched on the bech32 decode path")
+			// the other way of decoding a symbol: a reverse table indexed by the character
+			if !reverseTableRule(p, r, c07TablesRule, bdec, e, "bech32") {
+				r.Unresolved(c07TablesRule, "32-symbol constant searched (or reverse table indexed) on the bech32 decode path")
+			}
 		} else {
 			r.Add(c07TablesRule, FnName(bdec), "bech32 decode charset equals BIP173's and the encoder's", bdec.Pos(), d == bip173Charset && d == e, "searched with strings.IndexByte: position = value")
 		}
 	}
 	r.Floor(c07TablesRule, 7)
+}
+
+// radixWrapRule: a positional value accumulated in a fixed-width integer (acc = acc·K + digit in a loop over the
+// characters) wraps silently once K^digits exceeds the width.  For every such accumulator in the given packages the
+// number of digits must be provably small enough: len(input) ≤ ⌊width / log2 K⌋, from the branch conditions that
+// dominate the loop or, when the input is a parameter, from those that dominate every call.  (The repository decodes
+// with math/big; the rule is there for the day a word-sized fast path appears.)  Returns the number of accumulators.
+func radixWrapRule(p *Program, r *Report, rule string, pkgs []string) int {
+	n := 0
+	callers := map[*ssa.Function][]*ssa.Call{}
+	for _, fn := range p.Funcs {
+		for _, b := range fn.Blocks {
+			for _, in := range b.Instrs {
+				if c, ok := in.(*ssa.Call); ok {
+					if cal := c.Call.StaticCallee(); cal != nil {
+						callers[cal] = append(callers[cal], c)
+					}
+				}
+			}
+		}
+	}
+	for _, rel := range pkgs {
+		pk := p.Pkg(rel)
+		if pk == nil {
+			continue
+		}
+		for _, fn := range p.Funcs {
+			if fn.Pkg != pk {
+				continue
+			}
+			for _, b := range fn.Blocks {
+				for _, in := range b.Instrs {
+					ph, ok := in.(*ssa.Phi)
+					if !ok || !isLoopHeader(b) {
+						continue
+					}
+					bt, ok := ph.Type().Underlying().(*types.Basic)
+					if !ok || bt.Info()&types.IsInteger == 0 {
+						continue
+					}
+					// back-edge value acc*K (+ d)
+					var K int64
+					for i, e := range ph.Edges {
+						if !b.Dominates(b.Preds[i]) {
+							continue
+						}
+						v := e
+						if add, ok := v.(*ssa.BinOp); ok && (add.Op == token.ADD || add.Op == token.OR) {
+							if m, ok := add.X.(*ssa.BinOp); ok && m.Op == token.MUL {
+								v = m
+							} else if m, ok := add.Y.(*ssa.BinOp); ok && m.Op == token.MUL {
+								v = m
+							}
+						}
+						if m, ok := v.(*ssa.BinOp); ok && m.Op == token.MUL {
+							if k, ok := constInt(m.Y); ok && m.X == ssa.Value(ph) && k >= 2 {
+								K = k
+							}
+							if k, ok := constInt(m.X); ok && m.Y == ssa.Value(ph) && k >= 2 {
+								K = k
+							}
+						}
+					}
+					if K == 0 {
+						continue
+					}
+					n++
+					width := int64(64)
+					switch bt.Kind() {
+					case types.Int8, types.Uint8:
+						width = 8
+					case types.Int16, types.Uint16:
+						width = 16
+					case types.Int32, types.Uint32:
+						width = 32
+					}
+					if bt.Info()&types.IsUnsigned == 0 {
+						width--
+					}
+					// largest L with K^L ≤ 2^width
+					L := int64(0)
+					for pow := new(big.Int).SetInt64(1); ; L++ {
+						pow.Mul(pow, big.NewInt(K))
+						if pow.Cmp(new(big.Int).Lsh(big.NewInt(1), uint(width))) > 0 {
+							break
+						}
+					}
+					// the loop's bound: a len() the loop test compares the index with
+					var lenCall *ssa.Call
+					if iff, ok := lastInstr(b).(*ssa.If); ok {
+						if c, ok := iff.Cond.(*ssa.BinOp); ok {
+							for _, side := range []ssa.Value{c.X, c.Y} {
+								if lc, ok := side.(*ssa.Call); ok && isBuiltin(&lc.Call, "len") {
+									lenCall = lc
+								}
+							}
+						}
+					}
+					okW, how := false, fmt.Sprintf("accumulator of %d bits, radix %d: at most %d digits fit; no bound on the number of digits was found", width, K, L)
+					if lenCall != nil {
+						lc := NewLinCtx(p, fn)
+						goal := lc.Lin(lenCall).addConst(-L)
+						if lc.Entails(lc.FactsOf(MustCondsAtBlock(fn, b)), goal) {
+							okW, how = true, fmt.Sprintf("%d-bit accumulator, radix %d: the loop runs at most %d times (conditions dominating the loop)", width, K, L)
+						} else if pi := paramIndex(fn, lenCall.Call.Args[0]); pi >= 0 && len(callers[fn]) > 0 {
+							all := true
+							for _, cs := range callers[fn] {
+								cf := cs.Parent()
+								var callerLen *ssa.Call
+								for _, cb := range cf.Blocks {
+									for _, ci := range cb.Instrs {
+										if l2, ok := ci.(*ssa.Call); ok && isBuiltin(&l2.Call, "len") && l2.Call.Args[0] == cs.Call.Args[pi] {
+											callerLen = l2
+										}
+									}
+								}
+								if callerLen == nil {
+									all = false
+									continue
+								}
+								lc2 := NewLinCtx(p, cf)
+								if !lc2.Entails(lc2.FactsOf(MustCondsAtBlock(cf, cs.Block())), lc2.Lin(callerLen).addConst(-L)) {
+									all = false
+									how = fmt.Sprintf("%d-bit accumulator, radix %d: at most %d digits fit, but the call at %s allows longer input: the value wraps modulo 2^%d", width, K, L, p.Pos(cs.Pos()), width)
+								}
+							}
+							if all {
+								okW, how = true, fmt.Sprintf("%d-bit accumulator, radix %d: every call passes at most %d digits", width, K, L)
+							}
+						}
+					}
+					r.Add(rule, FnName(fn), "positional accumulation in a machine word cannot wrap", ph.Pos(), okW, how)
+				}
+			}
+		}
+	}
+	return n
+}
+
+// reverseTableRule: on the decode path below root a package-level table is indexed by a character of a string; its
+// contents (after package initialisation, consteval.go / initeval.go) must invert alpha symbol by symbol, and every
+// other entry must satisfy one of the rejection tests applied to the loaded entry.  Returns false if no such table
+// is found.
+func reverseTableRule(p *Program, r *Report, rule string, root *ssa.Function, alpha, what string) bool {
+	found := false
+	for _, fn := range p.Reachable([]*ssa.Function{root}) {
+		for _, b := range fn.Blocks {
+			for _, in := range b.Instrs {
+				ia, ok := in.(*ssa.IndexAddr)
+				if !ok {
+					continue
+				}
+				g, ok := ia.X.(*ssa.Global)
+				if !ok {
+					continue
+				}
+				sx, _, ok := elemRead(stripIntConv(ia.Index))
+				if !ok || !isStringType(sx.Type()) {
+					continue
+				}
+				found = true
+				vals, ok := p.constIntTable(g)
+				if !ok {
+					r.Undecided(rule, FnName(fn), what+" reverse table "+g.Name()+" has known contents", ia.Pos(), "neither a constant literal nor an initialisation that folds to constants")
+					continue
+				}
+				r.Add(rule, FnName(fn), what+" reverse table "+g.Name()+" is never reassigned", ia.Pos(), p.assignedOnlyByInit(g), "no store outside package initialisation")
+				// rejection tests on the loaded entry
+				type rej struct {
+					op token.Token
+					k  int64
+				}
+				var rejs []rej
+				for _, ref := range *ia.Referrers() {
+					ld, ok := ref.(*ssa.UnOp)
+					if !ok || ld.Op != token.MUL {
+						continue
+					}
+					var uses []ssa.Instruction
+					uses = append(uses, *ld.Referrers()...)
+					for _, u := range *ld.Referrers() {
+						if cv, ok := u.(*ssa.Convert); ok {
+							uses = append(uses, *cv.Referrers()...)
+						}
+					}
+					for _, u := range uses {
+						if bo, ok := u.(*ssa.BinOp); ok {
+							if k, ok := constInt(bo.Y); ok {
+								switch bo.Op {
+								case token.LSS, token.EQL, token.GEQ, token.GTR, token.NEQ, token.LEQ:
+									rejs = append(rejs, rej{bo.Op, k})
+								}
+							}
+						}
+					}
+				}
+				// other loads of the same table entry in the function (the test and the use are separate loads)
+				for _, b2 := range fn.Blocks {
+					for _, in2 := range b2.Instrs {
+						ia2, ok := in2.(*ssa.IndexAddr)
+						if !ok || ia2 == ia || ia2.X != ia.X {
+							continue
+						}
+						for _, ref := range *ia2.Referrers() {
+							if ld, ok := ref.(*ssa.UnOp); ok && ld.Op == token.MUL {
+								for _, u := range *ld.Referrers() {
+									if bo, ok := u.(*ssa.BinOp); ok {
+										if k, ok := constInt(bo.Y); ok {
+											rejs = append(rejs, rej{bo.Op, k})
+										}
+									}
+								}
+							}
+						}
+					}
+				}
+				holds := func(v int64, t rej) bool {
+					switch t.op {
+					case token.LSS:
+						return v < t.k
+					case token.LEQ:
+						return v <= t.k
+					case token.EQL:
+						return v == t.k
+					case token.GEQ:
+						return v >= t.k
+					case token.GTR:
+						return v > t.k
+					}
+					return false
+				}
+				// which tests are rejections: those no alphabet position satisfies
+				var rejecting []rej
+				for _, t := range rejs {
+					if t.op == token.NEQ {
+						continue
+					}
+					any := false
+					for i := range alpha {
+						if holds(int64(i), t) {
+							any = true
+						}
+					}
+					if !any {
+						rejecting = append(rejecting, t)
+					}
+				}
+				bad := ""
+				inAlpha := map[int]bool{}
+				for i := 0; i < len(alpha); i++ {
+					c := int(alpha[i])
+					inAlpha[c] = true
+					if c >= len(vals) || vals[c] != int64(i) {
+						got := int64(-999)
+						if c < len(vals) {
+							got = vals[c]
+						}
+						bad = fmt.Sprintf("table[%q] = %d, want %d", alpha[i], got, i)
+					}
+				}
+				nrej := 0
+				for c, v := range vals {
+					if inAlpha[c] {
+						continue
+					}
+					rejected := false
+					for _, t := range rejecting {
+						if holds(v, t) {
+							rejected = true
+						}
+					}
+					if !rejected {
+						bad = fmt.Sprintf("table[%d] = %d for a character outside the alphabet passes every rejection test", c, v)
+					} else {
+						nrej++
+					}
+				}
+				r.Add(rule, FnName(fn), what+" reverse table inverts the alphabet symbol by symbol; every other entry is rejected", ia.Pos(), bad == "" && len(rejecting) > 0,
+					fmt.Sprintf("%d symbols agree, %d other entries rejected by %d test(s); %s", len(alpha), nrej, len(rejecting), bad))
+			}
+		}
+	}
+	return found
+}
+
+func isStringType(t types.Type) bool {
+	b, ok := t.Underlying().(*types.Basic)
+	return ok && b.Info()&types.IsString != 0
 }
 
 func stripIntConv(v ssa.Value) ssa.Value {
